@@ -1,101 +1,189 @@
+"""C14: length-taking decoders stay inside their declared input.
+
+Harnesses: harness/bounded/{tagged,dict,elias,rle,bitmap}.c (+ refdec.h).  Every query hands the decoder an object of
+EXACTLY L bytes (L a constant per query) with arbitrary symbolic contents and the declared length L (Elias: a symbolic bit
+count <= 8L; tagged: a symbolic n <= L), plus "valid" queries that push the output of the REAL encoder (and every strict
+prefix of it) through the same decoder."""
 from vlib.core import Query
 
-META = {}
+META = {
+    "bounds": "input objects of exactly L bytes, every content: tagged L=0..12 (n symbolic <= L) and every truncation of every valid "
+              "1..9-byte encoding; dictionary decoders (DecodeInto capacity 4 [thorough: also 1 and 10], Decode) L in {0,1,2,3,6,12} "
+              "quick / 0..12 thorough, split exhaustively by the first byte of the size field; RLE run counter same L quick / 0..24 thorough; bitmap "
+              "deserialiser L in {0,1,3,4,5,6,7,9,12,13,17} quick / 0..17 thorough x container type {ARRAY, BITMAP, RUNS, other} at "
+              "the real constants (8 KiB BITMAP request served by a 128-byte surrogate object; with the scaled hook constants, if "
+              "the tree has the hook, BITMAP L=13 is the exact accept path); Elias gamma/delta L=0..2 quick / 0..3 thorough, srcBits "
+              "symbolic <= 8L, output capacity 4 (and 1), bit-exact non-interference gamma L=1..2, delta L=1 quick / both L=1..3 thorough. Valid-encoding "
+              "round trips + all strict prefixes: dict n=2 (any 64-bit values) [thorough: + n=3 values <= 67823], RLE n=3 (any values) "
+              "[thorough: + n=4 values <= 240], Elias n=2 (values 1..255 "
+              "[thorough: n=2 up to 65535 and n=3 up to 255]), bitmap 2 members, tagged all widths. Per-loop unwinding bounds derived from L "
+              "(--unwinding-assertions = termination within the declared size). Allocation: size-dispatch allocator, every request "
+              "must be <= 8 MiB (dictionary) / 128 KiB (bitmap). NDEBUG on; Elias/RLE also with library asserts enabled.",
+    "outside": "inputs longer than the listed L (the parsers keep no state beyond a cursor, so every check is reached with short inputs, "
+               "but that is an argument, not a verdict); BITMAP-typed accept path at the real 8192-byte size (only the reject path "
+               "L<=17 and the scaled accept path); consistency of an accepted bitmap's contents (sortedness, cardinality vs payload) "
+               "is not part of this property; callers that pass a length larger than the buffer (varintAdaptive passes 1 MiB).",
+    "assumptions": ["CBMC 6.11 C semantics, little-endian x86_64 data model",
+                    "byte-loop memcpy/memmove/memset stubs; insertion-sort qsort stub (valid-mode dictionary encoder only)",
+                    "size-dispatch allocator: requests within the bound get an object of exactly the requested size, larger "
+                    "requests (<= cap, asserted) a 128-byte surrogate; allocation never fails",
+                    "format facts used by the oracles: tagged varint lengths/values from the header comment of varintTagged.c; a "
+                    "dictionary stream is [size][entries][count][indices] with every field >= 1 byte; an RLE run is two varints; "
+                    "Elias code lengths from the definition of the codes; bitmap wire layout type(1) cardinality(4) payload"],
+    "explanation": "Oracles: CBMC pointer/bounds checks on exact-size input, output and allocator objects (over-read at/after L, "
+                   "over-write of the output, read outside the decoder's own allocation), unwinding assertions with bounds derived "
+                   "from L, P:alloc_bounded in the allocator stub, leak counter, and documented error results: tagged cut short => 0; "
+                   "dictionary / bitmap prefix of a valid encoding => 0 / NULL; RLE / Elias prefix => a short count, never an extra "
+                   "or wrong value; Elias additionally bit-exact (two inputs equal on the first srcBits bits decode identically).",
+}
 
 DICT_UNITS = ["varintDict.c", "varintTagged.c", "varintExternal.c"]
 
 
 def dict_queries(tier):
     qs = []
-    Ls = (0, 1, 2, 3, 6, 12) if tier == "quick" else range(0, 13)
+    quick = tier == "quick"
+    Ls = (0, 1, 2, 3, 6, 12) if quick else range(0, 13)
     for L in Ls:
         for into, nm in ((1, "into"), (0, "decode")):
-            rest = max(L - 1, 0)         # dictSize >= L-1 cannot be followed by a count and an index
+            caps = (4,) if (quick or not into or L not in (6, 12)) else (4, 1, 10)
+            rest = max(L - 1, 0)         # a single-byte size >= L-1 cannot be followed by a count and an index
             fn = "varintDictDecodeInto" if into else "varintDictDecode"
-            for ds in range(0, rest + 2):
-                if L == 0 and ds > 0:
-                    continue
-                cls = "ds%d" % ds if ds < rest else ("big" if ds == rest else "multi")
-                # per-loop bounds derived from L (termination). Entry loop .0: the announced size; "big": one entry per
-                # remaining byte; "multi": size field >= 2 bytes. Index loop .4: bytes left after size, entries and count.
-                # .1-.3 are the index-width loops (<= 3 bytes, global bound).
-                if ds < rest:
-                    b0, b4 = ds + 1, max(L - 1 - ds, 2)
-                elif ds == rest:
-                    b0, b4 = max(L, 1), 2
-                else:
-                    b0, b4 = max(L - 1, 1), max(L - 3, 2)
-                uw = {"memcpy.0": 9, "harness.0": L + 1, fn + ".0": b0, fn + ".4": b4}
-                qs.append(Query("dict-%s-L%d-%s" % (nm, L, cls), "bounded/dict.c", DICT_UNITS,
-                                defs={"L": L, "INTO": into, "CAP": 4, "DS": ds, "DSREST": rest},
-                                unwind=5, unwindset=uw, timeout=600, weight=1 + L))
+            units = DICT_UNITS if into else DICT_UNITS[::-1]   # (order only matters for the driver's function listing key)
+            for cap in caps:
+                for ds in list(range(0, rest + 1)) + [241, 249, 250]:
+                    if L == 0 and ds > 0:
+                        continue
+                    cls = "ds%d" % ds if ds < rest else ("big" if ds == rest else {241: "size2B", 249: "size3B", 250: "size4to9B"}[ds])
+                    # per-loop bounds derived from L (termination). Entry loop .0: the announced size; "big": one entry per
+                    # remaining byte; "sizeNB": the size field has >= N bytes. Index loop .4: bytes left after size, entries and
+                    # count. .1-.3 are the index-width loops (<= 3 bytes, global bound 5).
+                    if ds < rest:
+                        b0, b4 = ds + 1, max(L - 1 - ds, 2)
+                    elif ds == rest:
+                        b0, b4 = max(L, 1), 2
+                    else:
+                        w = {241: 2, 249: 3, 250: 4}[ds]
+                        b0, b4 = max(L - w + 1, 1), max(L - w - 1, 2)
+                    uw = {"memcpy.0": 9, "harness.0": L + 1, fn + ".0": b0, fn + ".4": b4}
+                    heavy = L >= 10 and (ds >= rest or ds <= 3)
+                    qs.append(Query("dict-%s-L%d-%s%s" % (nm, L, cls, "" if cap == 4 else "-cap%d" % cap), "bounded/dict.c", units,
+                                    defs={"L": L, "INTO": into, "CAP": cap, "DS": ds, "DSREST": rest},
+                                    unwind=5, unwindset=uw, timeout=900, weight=(3 if heavy else 1) * (1 + L) * (1 if into else 2)))
     for valid, nm in ((1, "into"), (2, "decode")):
-        qs.append(Query("dict-valid-%s-n2" % nm, "bounded/dict.c", DICT_UNITS, defs={"VALID": valid, "NV": 2},
-                        stubs=("mem", "qsort"), unwind=10, unwindset={"memcpy.0": 17, "harness.0": 23}, timeout=900, weight=20))
+        vu = [DICT_UNITS[1], DICT_UNITS[0], DICT_UNITS[2]] if valid == 1 else [DICT_UNITS[1], DICT_UNITS[2], DICT_UNITS[0]]
+        for part, pn in ((0, "exact"), (1, "truncated")):
+            qs.append(Query("dict-valid-%s-n2-%s" % (nm, pn), "bounded/dict.c", vu, defs={"VALID": valid, "NV": 2, "PART": part},
+                            stubs=("mem", "qsort"), unwind=10, unwindset={"memcpy.0": 17, "harness.0": 23}, timeout=1200, weight=80))
+            if not quick:   # three values of 1..3 encoded bytes each
+                qs.append(Query("dict-valid-%s-n3-3byte-%s" % (nm, pn), "bounded/dict.c", vu,
+                                defs={"VALID": valid, "NV": 3, "PART": part, "VMAX": 67823}, stubs=("mem", "qsort"), unwind=10,
+                                unwindset={"memcpy.0": 25, "harness.1": 33}, timeout=1800, weight=80))
     return qs
 
 
 def elias_queries(tier):
     qs = []
-    Ls = (0, 1, 2) if tier == "quick" else (0, 1, 2, 3)
+    quick = tier == "quick"
+    Ls = (0, 1, 2) if quick else (0, 1, 2, 3)
     for delta, nm in ((0, "gamma"), (1, "delta")):
         arr = "varintElias%sDecodeArray.0" % ("Delta" if delta else "Gamma")
+        enc = "varintElias%sEncodeArray.0" % ("Delta" if delta else "Gamma")
+        # the extra units are unused (removed by --drop-unused-functions); they only make the driver's function-listing key
+        # (harness, units) distinct per variant so that the evidence lists the delta / valid-mode functions too
+        eu = ["varintElias.c"] + (["varintTagged.c"] if delta else [])
         for L in Ls:
             nb = min(8 * L, 64)
             hl = {"harness.0": L + 1, "harness.1": 5, "harness.2": 8 * L + 1, "harness.3": L + 1, "harness.4": 5}
             # (a) bounds derived from L (termination within the declared size): a zero run can consume at most 8L bits plus the
             #     iteration that finds the input exhausted; a payload has at most 8L bits; at most CAP values.
             for ni in (0, 1):
-                if ni and (L == 0 or (tier == "quick" and L == 2 and delta) or L == 3):
-                    continue    # delta L=2 bit-exact: ~2 min, thorough only; L=3 bit-exact: no verdict within the budget
-                defs = {"L": L, "CAP": 4, "DELTA": delta}
-                if ni:
-                    defs["NI"] = 1
-                uw = dict(hl); uw.update({"varintEliasGammaDecode.0": nb + 2, "varintBitReaderRead.0": max(nb + 1, 2), arr: 6})
-                qs.append(Query("elias-%s-L%d%s" % (nm, L, "-bitexact" if ni else ""), "bounded/elias.c", ["varintElias.c"],
-                                defs=defs, unwind=4, unwindset=uw, timeout=900, weight=(1 + L) * (2 if ni else 1) * 3))
+                if ni and (L == 0 or (quick and L == 2 and delta)):
+                    continue    # bit-exact: delta L=2 ~2-3 min, gamma L=3 ~4 min, delta L=3 ~12 min: thorough only
+                for nd in (True, False):
+                    if not nd and (ni or (quick and L != 1)):
+                        continue
+                    defs = {"L": L, "CAP": 4, "DELTA": delta}
+                    if ni:
+                        defs["NI"] = 1
+                    uw = dict(hl)
+                    uw.update({"varintEliasGammaDecode.0": nb + 2, "varintBitReaderRead.0": max(nb + 1, 2), arr: 6})
+                    qs.append(Query("elias-%s-L%d%s%s" % (nm, L, "-bitexact" if ni else "", "" if nd else "+asserts"), "bounded/elias.c",
+                                    eu, defs=defs, unwind=4, unwindset=uw, timeout=1800, ndebug=nd,
+                                    weight=(1 + L) * (1 + L) * (4 if ni else 1) * (3 if delta else 1) * (20 if ni and L == 3 else 1)))
             # (b) one value with the bounds the code itself promises (zero run stops after 64 zeros, payload <= 64 bits): gives a
             #     memory verdict even on a tree whose loops ignore the declared size
-            uw = dict(hl); uw.update({"varintEliasGammaDecode.0": 66, "varintBitReaderRead.0": 66, arr: 3})
-            qs.append(Query("elias-%s-L%d-cap1-codebounds" % (nm, L), "bounded/elias.c", ["varintElias.c"],
+            uw = dict(hl)
+            uw.update({"varintEliasGammaDecode.0": 66, "varintBitReaderRead.0": 66, arr: 3})
+            qs.append(Query("elias-%s-L%d-cap1-codebounds" % (nm, L), "bounded/elias.c", eu,
                             defs={"L": L, "CAP": 1, "DELTA": delta}, unwind=4, unwindset=uw, timeout=900, weight=6))
-        uw = {"memset.0": 40, "varintBitWriterWrite.0": 10, "varintBitReaderRead.0": 10, "varintEliasGammaEncode.0": 9,
-              "varintEliasGammaDecode.0": 10, "ref_log2.0": 64, "floorLog2.0": 9,
-              "varintElias%sEncodeArray.0" % ("Delta" if delta else "Gamma"): 4, arr: 4}
-        qs.append(Query("elias-%s-valid-n2" % nm, "bounded/elias.c", ["varintElias.c"], defs={"VALID": 1, "NV": 2, "VMAX": 255, "DELTA": delta},
-                        unwind=4, unwindset=uw, timeout=900, weight=10))
+        vq = [("n2", 2, 255, 10)]
+        if not quick:
+            vq += [("n3", 3, 255, 10), ("n2-v16", 2, 65535, 18)]     # (n=2 up to 2^32-1: gamma 19 min, delta > 30 min: not run)
+        for tag, nv, vmax, lb in vq:
+            # loop bounds from VMAX: values < 2^(lb-2) -> zero runs / payloads / log loops below lb
+            uw = {"memset.0": (nv * 127 + 7) // 8 + 1, "varintBitWriterWrite.0": lb, "varintBitReaderRead.0": lb,
+                  "varintEliasGammaEncode.0": lb, "varintEliasGammaDecode.0": lb, "ref_log2.0": 64, "floorLog2.0": lb,
+                  enc: nv + 2, arr: nv + 2}
+            qs.append(Query("elias-%s-valid-%s" % (nm, tag), "bounded/elias.c", eu + ["varintExternal.c"],
+                            defs={"VALID": 1, "NV": nv, "VMAX": vmax, "DELTA": delta}, unwind=nv + 2, unwindset=uw, timeout=1800,
+                            weight=12 if tag == "n2" else 60))
     return qs
 
 
 def rle_queries(tier):
     qs = []
-    Ls = (0, 1, 2, 3, 6, 12) if tier == "quick" else range(0, 13)
+    quick = tier == "quick"
+    Ls = (0, 1, 2, 3, 6, 12) if quick else range(0, 25)
     for L in Ls:
-        qs.append(Query("rle-runcount-L%d" % L, "bounded/rle.c", ["varintRLE.c", "varintTagged.c"], defs={"L": L},
-                        unwind=10, unwindset={"varintRLEGetRunCount.0": L // 2 + 2, "harness.0": L + 1, "memcpy.0": 9}, timeout=600,
-                        weight=1 + L))
-    qs.append(Query("rle-runcount-valid-n3", "bounded/rle.c", ["varintRLE.c", "varintTagged.c"], defs={"VALID": 1, "NV": 3},
-                    unwind=10, unwindset={"harness.0": 41, "memcpy.0": 9}, timeout=600, weight=8))
+        for nd in (True, False):
+            if not nd and quick and L != 3:
+                continue
+            qs.append(Query("rle-runcount-L%d%s" % (L, "" if nd else "+asserts"), "bounded/rle.c", ["varintRLE.c", "varintTagged.c"],
+                            defs={"L": L}, unwind=10, ndebug=nd,
+                            unwindset={"varintRLEGetRunCount.0": L // 2 + 2, "harness.0": L + 1, "memcpy.0": 9}, timeout=600,
+                            weight=1 + L))
+    qs.append(Query("rle-runcount-valid-n3", "bounded/rle.c", ["varintTagged.c", "varintRLE.c"], defs={"VALID": 1, "NV": 3},
+                    unwind=10, unwindset={"harness.0": 41, "memcpy.0": 9}, timeout=900, weight=40))
+    if not quick:
+        qs.append(Query("rle-runcount-valid-n4-1byte", "bounded/rle.c", ["varintTagged.c", "varintRLE.c"],
+                        defs={"VALID": 1, "NV": 4, "VMAX": 240}, unwind=10, unwindset={"harness.1": 51, "memcpy.0": 9}, timeout=1800,
+                        weight=40))
     return qs
 
 
+# scaled container constants of the verification hook (DESIGN.md 2.7); ignored by a tree without the hook
 SCALED = {"VARINT_VERIF_BITMAP_MAX_VALUE": 64, "VARINT_VERIF_BITMAP_ARRAY_MAX": 4, "VARINT_VERIF_BITMAP_BITMAP_SIZE": 8,
           "VARINT_VERIF_BITMAP_DEFAULT_ARRAY_CAPACITY": 2}
 
 
+# Optional known finding (not opened by this check: proposed-fixes/C14-bitmap.patch repairs it).  If known-findings.json gets an
+# open entry with this id, every bitmap query is run as <query> with the region excluded and <query>@KF restricted to it.
+KF_BITMAP = "C14_BITMAP_DECODE_TRUSTS_INPUT"
+
+
 def bitmap_queries(tier):
+    qs = _bitmap_queries(tier)
+    for q in qs:
+        q.kf = [KF_BITMAP]
+    return qs
+
+
+def _bitmap_queries(tier):
     qs = []
+    quick = tier == "quick"
     # L <= 12 as for the other decoders, plus 13 and 17 so that RUNS input with 1 and 2 runs (9 + 4k bytes) has an accept path
-    Ls = (0, 1, 3, 4, 5, 6, 7, 9, 12, 13, 17) if tier == "quick" else range(0, 18)
+    Ls = (0, 1, 3, 4, 5, 6, 7, 9, 12, 13, 17) if quick else range(0, 18)
     tn = {0: "array", 1: "bitmap", 2: "runs", 3: "unknown"}
     for L in Ls:
         for t in (0, 1, 2, 3):
             if L == 0 and t > 0:
                 continue
+            # copy loops: 4-byte header fields and a payload that must fit in L; Contains walks <= (L-9)/4 runs
             uw = {"memcpy.0": max(L, 5) + 1, "harness.0": L + 1, "varintBitmapContains.0": max((L - 9) // 4, 0) + 2,
                   "binarySearch_.0": 5}
-            qs.append(Query("bitmap-%s-L%d" % (tn[t], L), "bounded/bitmap.c", ["varintBitmap.c"], defs={"L": L, "TYPE": t},
-                            unwind=4, unwindset=uw, timeout=600, weight=1 + L // 4))
+            qs.append(Query("bitmap-%s-L%d" % (tn[t] if L else "any", L), "bounded/bitmap.c", ["varintBitmap.c"],
+                            defs={"L": L, "TYPE": t}, unwind=4, unwindset=uw, timeout=600, weight=1 + L // 4))
     # sub-regions with a small declared count / a fully unwound 8 KiB copy: redundant on a correct tree, but they end in a memory
     # verdict (not an exceeded loop bound) on a tree that trusts the declared sizes
     for t, L in ((0, 5), (0, 8), (2, 9), (2, 12)):
@@ -103,14 +191,15 @@ def bitmap_queries(tier):
         qs.append(Query("bitmap-%s-L%d-claim4" % (tn[t], L), "bounded/bitmap.c", ["varintBitmap.c"],
                         defs={"L": L, "TYPE": t, "CLAIM_MAX": 4}, unwind=4, unwindset=uw, timeout=600, weight=2))
     qs.append(Query("bitmap-bitmap-L12-fullcopy", "bounded/bitmap.c", ["varintBitmap.c"], defs={"L": 12, "TYPE": 1}, unwind=4,
-                    unwindset={"memcpy.0": 8193, "harness.0": 13}, timeout=600, weight=4))
+                    unwindset={"memcpy.0": 8193, "harness.0": 13}, timeout=900, weight=10))
     # BITMAP-typed input with the scaled container constants of the verification hook (universe 64, 8-byte bitmap): exact accept
     # path at L = 13.  On a tree without the hook the macros are ignored and these are the real-constant queries again.
-    for L in ((12, 13) if tier == "quick" else (5, 6, 12, 13, 14)):
-        d = {"L": L, "TYPE": 1}; d.update(SCALED)
+    for L in ((12, 13) if quick else (5, 6, 12, 13, 14)):
+        d = {"L": L, "TYPE": 1}
+        d.update(SCALED)
         qs.append(Query("bitmap-bitmap-scaled-L%d" % L, "bounded/bitmap.c", ["varintBitmap.c"], defs=d, unwind=4,
-                        unwindset={"memcpy.0": L + 1, "harness.0": L + 1}, timeout=600, weight=2))
-    qs.append(Query("bitmap-valid-n2", "bounded/bitmap.c", ["varintBitmap.c"], defs={"VALID": 1, "NV": 2}, unwind=4,
+                        unwindset={"memcpy.0": max(L, 8) + 1, "harness.0": L + 1}, timeout=600, weight=2))
+    qs.append(Query("bitmap-valid-n2", "bounded/bitmap.c", ["varintBitmap.c", "varintExternal.c"], defs={"VALID": 1, "NV": 2}, unwind=4,
                     unwindset={"memcpy.0": 10, "memmove.0": 5, "memmove.1": 5, "harness.0": 3, "harness.1": 10, "binarySearch_.0": 4},
                     timeout=600, weight=3))
     return qs
@@ -122,8 +211,8 @@ def tagged_queries(tier):
         qs.append(Query("tagged-get-L%d" % L, "bounded/tagged.c", ["varintTagged.c"], defs={"L": L}, unwind=10,
                         unwindset={"harness.0": L + 1, "memcpy.0": 9}, timeout=300))
     for W in range(1, 10):
-        qs.append(Query("tagged-get-valid-w%d" % W, "bounded/tagged.c", ["varintTagged.c"], defs={"VALID": 1, "W": W}, unwind=10,
-                        unwindset={"memcpy.0": 9}, timeout=300))
+        qs.append(Query("tagged-get-valid-w%d" % W, "bounded/tagged.c", ["varintTagged.c", "varintExternal.c"],
+                        defs={"VALID": 1, "W": W}, unwind=10, unwindset={"memcpy.0": 9}, timeout=300))
     return qs
 
 
